@@ -16,20 +16,29 @@ RULE = (
     "callable matchers; timeout; start tick; optional cancellation tick) and <=8 incoming messages over the server "
     "connection and two peer connections of a real Network on the in-memory TCP layer (matching one, several or no "
     "request; wrong peer; right class wrong field; optionally glued to the previous message in one TCP segment so "
-    "both are processed back-to-back; optionally the expected peer's message connection closes by EOF / reset and the peer comes back on a fresh connection 0..4 ticks later, replies then travel over the new connection; optionally application listeners of MessageReceivedEvent that raise (function / coroutine, at once or after zero-length waits); optionally create_peer_connection('a'|'b') calls that need the same GetPeerAddress reply and are cancelled a few ticks later), all on a 1 ms tick grid with 1 ms latency. Oracle (reference model, first "
-    "match): a request completes with the first message arriving strictly after its registration and strictly "
+    "both are processed back-to-back; optionally the expected peer's message connection closes by EOF / reset and the peer comes back on a fresh connection 0..4 ticks later, replies then travel over the new connection; optionally application listeners of MessageReceivedEvent that raise (function / coroutine, at once or after zero-length waits); optionally 1..2 application listeners of MessageReceivedEvent that really SUSPEND: the k-th message of a connection keeps the listener busy for plan[k mod len(plan)] = nothing | 1..5 loop iterations | 0.2..3.0 ms of virtual time (no reconnections in such cases); optionally create_peer_connection('a'|'b') calls that need the same GetPeerAddress reply and are cancelled a few ticks later), all on a 1 ms tick grid with 1 ms latency. Oracle (reference model, first "
+    "match, derived from DataConnection._message_reader_loop / Network.on_message_received / EventBus.emit): the messages of a connection are handled strictly one after the other in arrival order; the handling of a message starts at max(its arrival, end of the handling of the previous message of that connection) and ends after the sum of the listener suspensions, and the pending requests see the message at the END of its handling (exact integer microseconds; without suspending listeners that is the arrival). A request completes with the first message whose handling ends strictly after its registration and strictly "
     "before its deadline/cancellation that has the expected class, comes from the expected server/peer connection "
-    "and satisfies all field matchers; otherwise TimeoutError (cancelled caller: CancelledError) and never another "
+    "and satisfies all field matchers (the completing message is identified as an OBJECT: the k-th object handed to on_message_received for a connection is the k-th message sent on it, so a later equal-valued message is told apart); the order in which the handling of the messages of a connection ends, and the order in which a recording listener registered behind the others sees them, equals the arrival order; otherwise TimeoutError (cancelled caller: CancelledError) and never another "
     "exception; on_message_received never raises; afterwards the pending list is empty, the loop recorded no "
     "error, and a probe request registered after the history is still completed by its reply. Events that fall on "
-    "the same tick as a registration/deadline/cancellation are ties: both orders are accepted. Non-trivial = two "
+    "the same instant as a registration/deadline/cancellation are ties: both orders are accepted. Non-trivial = two "
     "requests answered by one message, or two matching messages glued in one segment, or an arrival within one tick "
-    "of a deadline/cancellation, or a request and a create_peer_connection() call that need the same address reply; distinct = distinct case document."
+    "of a deadline/cancellation, or a request and a create_peer_connection() call that need the same address reply, or a matching message that waited in the read buffer while a listener was busy with the previous one, or a request registered while the message that answers it was being handled; distinct = distinct case document. "
+    "Command tier (checks/c12_cmd.py): SoulSeekClient.execute(command, response=True) for 11 commands against the simulated server / scripted peers with <=3 scripted replies (the correct one and near misses: other user / room / text / ticket / directory / peer), optional write back pressure on the server connection, and optionally the run-time settings change settings.credentials.username = <other name> (incl. the user name of the near-miss echo) right before execute() while the session of the logged-in user stays active: the server keeps echoing RoomChatMessage / RoomTickerAdded with the SESSION user; the request completes with the first correct reply inside the timeout and with nothing else."
 )
 ASSUMPTIONS = [
     "every delivery has strictly positive latency (1 ms); requests, deadlines and arrivals live on a 1 ms grid",
     "completion order among several waiters answered by one message is not constrained",
     "callable matchers are part of the public `fields` contract: all matchers of a request must hold",
+    "a listener of MessageReceivedEvent that suspends delays both the completion of the requests the message answers "
+    "and the reading of the following messages of that connection (on_message_received awaits EventBus.emit before it "
+    "completes futures; the reader awaits on_message_received): the model follows the code here, the property only "
+    "fixes WHICH message completes a request; suspensions of 1..5 loop iterations take no virtual time",
+    "suspending listeners are not combined with connection close/reopen events (a reset discards messages that are "
+    "still waiting in the read buffer; handling would overlap between the old and the new connection object)",
+    "the echo of a room message / ticker carries the name of the logged-in (session) user; credentials stored in the "
+    "settings afterwards are for the next login and do not change what answers a pending command",
 ]
 BUDGET_S = {'quick': 150, 'thorough': 1500}
 
@@ -129,8 +138,22 @@ def case_strategy(draw):
                            max_size=2)) if draw(st.integers(0, 2)) == 0 else []
     # application listeners of MessageReceivedEvent that raise (plain function / coroutine, raising at once or after
     # 1..3 zero-length waits): a failing listener must not keep a reply from completing the requests it answers
+    lmode = draw(st.integers(0, 6))
     listeners = draw(st.lists(st.sampled_from(['sync-raise', 'async-raise', 'async-raise-late', 'async-ok']),
-                              max_size=2)) if draw(st.integers(0, 2)) == 0 else []
+                              max_size=2)) if lmode <= 1 else []
+    if lmode in (2, 3):
+        # application listeners that really SUSPEND while a message is handled: the k-th message of a connection
+        # keeps the listener busy for plan[k % len(plan)] (0 = returns at once, 1..5 = that many loop iterations,
+        # >= 200 = microseconds of virtual time); completing the pending requests and reading the following
+        # (possibly already buffered) messages of that connection wait for it
+        for _ in range(draw(st.integers(1, 2))):
+            plan = draw(st.lists(st.one_of(st.just(0), st.integers(1, 5), st.integers(2, 30).map(lambda x: x * 100)),
+                                 min_size=1, max_size=4))
+            listeners.append({'suspend': plan})
+        if draw(st.integers(0, 3)) == 0:
+            listeners.insert(draw(st.integers(0, len(listeners))),
+                             draw(st.sampled_from(['sync-raise', 'async-raise', 'async-raise-late'])))
+        reconn = []
     # other library activity that needs the same server reply: create_peer_connection(user) asks for the address of
     # 'a'/'b' (GetPeerAddress) and is cancelled a few ticks later; requests of the case waiting for the same reply
     # are not affected by that
@@ -181,9 +204,25 @@ def _sanitise(case):
                         'glue': bool(m.get('glue'))})
         except Exception:
             continue
+    listeners = []
+    for x in (case.get('listeners') or [])[:3]:
+        if isinstance(x, str) and x in ('sync-raise', 'async-raise', 'async-raise-late', 'async-ok'):
+            listeners.append(x)
+        elif isinstance(x, dict) and isinstance(x.get('suspend'), list):
+            plan = []
+            for v in x['suspend'][:4]:
+                if isinstance(v, bool) or not isinstance(v, int):
+                    continue
+                # 0 = no suspension, 1..5 = loop iterations, 200..3000 = microseconds (multiples of 100)
+                plan.append(0 if v <= 0 else v if v <= 5 else max(200, min(3000, v // 100 * 100)))
+            if plan:
+                listeners.append({'suspend': plan})
     reconn = []
     last_open = {}
-    for e in sorted((e for e in (case.get('reconn') or [])[:3] if isinstance(e, dict)),
+    # the serial-handling model is per connection OBJECT: no reconnections together with suspending listeners
+    # (a reset would also discard the messages still waiting in the read buffer)
+    suspending = any(isinstance(x, dict) for x in listeners)
+    for e in sorted((e for e in ([] if suspending else (case.get('reconn') or [])[:3]) if isinstance(e, dict)),
                     key=lambda e: (int(e.get('at', 0)) if isinstance(e.get('at', 0), int) else 0)):
         try:
             conn = e['conn'] if e.get('conn') in ('peer0', 'peer1') else 'peer0'
@@ -200,8 +239,6 @@ def _sanitise(case):
         for e in reconn:
             if m['conn'] == e['conn'] and e['at'] <= m['at'] < e['at'] + e['gap']:
                 m['at'] = e['at'] + e['gap']
-    listeners = [x for x in (case.get('listeners') or [])[:3]
-                 if x in ('sync-raise', 'async-raise', 'async-raise-late', 'async-ok')]
     connects = []
     for e in (case.get('connects') or [])[:3]:
         try:
@@ -254,9 +291,33 @@ def run_case(case) -> CaseResult:
         for i in idxs:
             arrival[i] = tick + 1
             order.append(i)
+    # Handling model (network.py / connection.py): ONE reader per connection reads a message, awaits
+    # Network.on_message_received (internal handler, then EventBus.emit which awaits the listeners one after the other,
+    # THEN the pending requests are completed) and only then reads the next message.  So the messages of a connection
+    # are handled strictly one after the other: handling of message k starts at max(arrival k, end of k-1) and ends
+    # after the sum of the listener suspensions; requests see the message at the END of its handling.  Times in
+    # microseconds (exact integers); suspensions of 1..5 loop iterations take no virtual time.
+    plans = [x['suspend'] for x in listeners if isinstance(x, dict)]
+    seq = {}        # connection -> msg indices in send order
+    for i in order:
+        seq.setdefault(inc[i]['conn'], []).append(i)
+    handled_at = {}     # msg index -> microsecond at which its handling ends (requests are completed then)
+    waited = set()      # messages that had to wait in the read buffer for the handling of the previous one
+    for conn in sorted(seq):
+        prev_end = 0
+        for k, i in enumerate(seq[conn]):
+            a = arrival[i] * 1000
+            if prev_end > a:
+                waited.add(i)
+            d = sum((p[k % len(p)] if p[k % len(p)] > 5 else 0) for p in plans)
+            handled_at[i] = prev_end = max(a, prev_end) + d
+    pos = {i: n for n, i in enumerate(order)}
+    order = sorted(order, key=lambda i: (handled_at[i], pos[i]))    # order in which requests see the messages
 
     outcomes = {}
     cb_errors = []
+    entered, finished, seen = {}, [], []
+    rec = {}
 
     async def main(world: simworld.World):
         loop = world.loop
@@ -264,12 +325,19 @@ def run_case(case) -> CaseResult:
         network = Network(settings, EventBus())
         orig = network.on_message_received
 
+        def ckey(connection):
+            return 'server' if connection is network.server_connection else getattr(connection, 'username', None)
+
         async def guarded(message, connection):
+            key = ckey(connection)
+            entered.setdefault(key, []).append(message)     # order in which the reader hands the messages over
             try:
                 return await orig(message, connection)
             except Exception as exc:  # what the reader loop would log as "error during callback"
                 cb_errors.append((round(loop.time(), 6), type(exc).__name__, repr(message)))
                 raise
+            finally:
+                finished.append((key, message))             # order in which their handling ends
         network.on_message_received = guarded
         from aioslsk.events import MessageReceivedEvent
         keep = []
@@ -286,6 +354,18 @@ def run_case(case) -> CaseResult:
                     await asyncio.sleep(0)
                     await asyncio.sleep(0)
                     raise RuntimeError('listener failed')
+            elif isinstance(kind, dict):
+                plan, calls = kind['suspend'], {}
+
+                async def l(event):
+                    key = ckey(event.connection)
+                    k = calls.get(key, 0)
+                    calls[key] = k + 1
+                    v = plan[k % len(plan)]
+                    if 1 <= v <= 5:
+                        await simloop.step(v)
+                    elif v > 5:
+                        await asyncio.sleep(v / 1e6)
             else:
                 async def l(event):
                     await asyncio.sleep(0)
@@ -294,6 +374,11 @@ def run_case(case) -> CaseResult:
             l = mk_listener(kind)
             keep.append(l)          # the bus holds listeners weakly
             network._event_bus.register(MessageReceivedEvent, l)
+        if listeners:
+            def recorder(event):    # called after all other listeners
+                seen.append((ckey(event.connection), event.message))
+            keep.append(recorder)
+            network._event_bus.register(MessageReceivedEvent, recorder, priority=1000)
         if connects:
             # the simulated server stays silent about addresses / connect requests: only the messages of the case
             # answer anything
@@ -414,6 +499,9 @@ def run_case(case) -> CaseResult:
         await asyncio.sleep(0.2)
         await asyncio.gather(*tasks, *cancels, return_exceptions=True)
         residue = len(network._expected_response_futures)
+        rec['entered'] = {k: list(v) for k, v in entered.items()}
+        rec['finished'] = list(finished)
+        rec['seen'] = list(seen)
         # probe: the machinery still works afterwards
         probe = network.create_server_response_future(M.GetUserStatus.Response, fields={'username': 'probe'})
         world.server.send(M.GetUserStatus.Response('probe', 1, False))
@@ -430,15 +518,43 @@ def run_case(case) -> CaseResult:
 
     (residue, probe_ok, reader_alive), loop_errors = simworld.run_world(main)
 
+    # ---- which incoming message is which object ------------------------------
+    # the reader hands the messages of a connection to on_message_received in the order they were sent: the k-th
+    # object entered for a connection is the k-th message of the case for that connection (only used when the
+    # counts and the values agree; otherwise outcomes are compared by value)
+    objmap = {}
+    ent = rec.get('entered', {})
+    mapped = bool(inc) and all(len(ent.get(conn, [])) == len(idxs) for conn, idxs in seq.items()) and \
+        all(conn in seq for conn in ent)
+    if mapped:
+        for conn, idxs in seq.items():
+            for obj, mi in zip(ent[conn], idxs):
+                if obj != _build(inc[mi]['cls'], inc[mi]['values']):
+                    mapped = False
+                objmap[id(obj)] = mi
+    if mapped:
+        # messages of one connection are handled one after the other, in the order of their arrival
+        for what, rows in (('handling-finished', rec.get('finished', [])), ('seen-by-listener', rec.get('seen', []))):
+            if what == 'seen-by-listener' and not listeners:
+                continue
+            for conn in sorted(seq):
+                got_seq = [objmap.get(id(obj)) for key, obj in rows if key == conn]
+                if got_seq != seq[conn]:
+                    res.violate('C12/messages-handled-out-of-order:' + what,
+                                f'connection {conn}: messages arrived in the order {seq[conn]}, {what} in the order '
+                                f'{got_seq} (indices of "incoming"; listeners {listeners})')
+                    break
+
     # ---- reference model ---------------------------------------------------
     ties = False
     near = False
     multi = False
+    late_reg = False
     answered_by = {}
     for i, r in enumerate(reqs):
-        reg = r['at']
-        dl = r['at'] + r['timeout']
-        cancel = None if r['cancel'] is None else r['at'] + r['cancel']
+        reg = r['at'] * 1000
+        dl = (r['at'] + r['timeout']) * 1000
+        cancel = None if r['cancel'] is None else (r['at'] + r['cancel']) * 1000
         end = dl if cancel is None or dl <= cancel else cancel
         end_kind = 'timeout' if (cancel is None or dl < cancel) else ('tie-end' if dl == cancel else 'cancelled')
         strict = None       # first match strictly inside (reg, end)
@@ -447,15 +563,17 @@ def run_case(case) -> CaseResult:
             m = inc[mi]
             if not _matches(r, m):
                 continue
-            t = arrival[mi]
+            t = handled_at[mi]
             if t == reg or t == end:
                 ties = True
                 acceptable.add(mi)      # may or may not be seen
                 continue
-            if abs(t - end) <= 1:
+            if abs(t - end) <= 1000:
                 near = True
             if reg < t < end:
                 strict = mi
+                if arrival[mi] * 1000 <= reg:
+                    late_reg = True     # registered while the message that answers it was being handled
                 break
         got = outcomes.get(i)
         if got is None:
@@ -472,9 +590,22 @@ def run_case(case) -> CaseResult:
         if got[0] == 'msg':
             cands = ([strict] if strict is not None else []) + sorted(acceptable)
             vals = [_build(inc[mi]['cls'], inc[mi]['values']) for mi in cands]
-            ok = any(got[1] == v for v in vals)
-            if ok:
-                answered_by[i] = [mi for mi, v in zip(cands, vals) if got[1] == v][0]
+            got_mi = objmap.get(id(got[1])) if mapped else None
+            if got_mi is not None:
+                # the very object that was handed to on_message_received as message #got_mi
+                ok = got_mi in cands
+                if ok:
+                    answered_by[i] = got_mi
+                elif _matches(r, inc[got_mi]):
+                    res.violate('C12/completed-by-wrong-message',
+                                f'request {i} {r} completed with message #{got_mi} {got[1]!r} (handling ends at '
+                                f'{handled_at[got_mi]} us), expected message #{strict} (handling ends at '
+                                f'{handled_at.get(strict)} us) or a tie {sorted(acceptable)}; listeners {listeners}')
+                    continue
+            else:
+                ok = any(got[1] == v for v in vals)
+                if ok:
+                    answered_by[i] = [mi for mi, v in zip(cands, vals) if got[1] == v][0]
             if not ok:
                 has_callable = any(isinstance(m, dict) for m in r['fields'].values())
                 matching_any = [mi for mi in order if _matches(r, inc[mi])]
@@ -496,7 +627,8 @@ def run_case(case) -> CaseResult:
                     if has_callable and len(r['fields']) > 1:
                         kind += ':callable-with-other-matchers'
                     res.violate(kind, f'request {i} {r} timed out although message #{strict} '
-                                      f'{inc[strict]} arrived at tick {arrival[strict]}')
+                                      f'{inc[strict]} arrived at tick {arrival[strict]} (handling ends at '
+                                      f'{handled_at[strict]} us)')
                 else:
                     res.violate('C12/timeout-instead-of-cancel', f'request {i} {r}')
         elif got[0] == 'cancelled':
@@ -504,7 +636,8 @@ def run_case(case) -> CaseResult:
             if not ok:
                 if strict is not None:
                     res.violate('C12/matching-message-ignored', f'request {i} {r} cancelled although message '
-                                                                 f'#{strict} arrived at tick {arrival[strict]}')
+                                                                 f'#{strict} arrived at tick {arrival[strict]} '
+                                                                 f'(handling ends at {handled_at[strict]} us)')
                 else:
                     res.violate('C12/cancel-instead-of-timeout', f'request {i} {r}')
     if len(set(answered_by.values())) < len(answered_by):
@@ -522,7 +655,13 @@ def run_case(case) -> CaseResult:
                       for _, _, idxs in segments)
     shared_reply = bool(connects) and any(r['cls'] == 'GetPeerAddress' and r['fields'].get('username') in
                                           [e['user'] for e in connects] for r in reqs)
-    res.nontrivial = bool(multi or glued_match or near or ties or shared_reply)
+    # a message that answers a request had to wait in the read buffer while a listener was busy with the previous one
+    buffered_match = any(i in waited and any(_matches(r, inc[i]) for r in reqs) for i in order)
+    res.nontrivial = bool(multi or glued_match or near or ties or shared_reply or buffered_match or late_reg)
+    if buffered_match:
+        res.label('matching-message-waited-for-suspended-listener')
+    if late_reg:
+        res.label('request-registered-while-its-answer-was-being-handled')
     if shared_reply:
         res.label('request-and-create-peer-connection-need-the-same-reply')
     if multi:
@@ -536,7 +675,9 @@ def run_case(case) -> CaseResult:
     for o in outcomes.values():
         res.label('outcome:' + o[0])
     for x in listeners:
-        res.label('listener:' + x)
+        res.label('listener:' + (x if isinstance(x, str) else 'suspend'))
+    if mapped:
+        res.label('messages-identified-by-object')
     if connects:
         res.label('concurrent-create-peer-connection')
     if any(isinstance(m, dict) for r in reqs for m in r['fields'].values()):
@@ -563,8 +704,29 @@ def _shared_reply_cases():
                                    'connects': [{'user': cuser, 'at': con_at, 'cancel': cancel}]}
 
 
+def _suspending_cases():
+    """Two or three messages that answer the same pending request arrive in one segment / one tick apart while an
+    application listener is busy with the first one for longer than with the following ones."""
+    for api in APIS:
+        for conn, name, vals in (('server', 'GetUserStatus', [{'username': 'a', 'status': s, 'privileged': False}
+                                                              for s in (2, 1, 0)]),
+                                 ('peer0', 'PeerPlaceInQueueReply', [{'filename': 'f', 'place': p} for p in (1, 0, 1)])):
+            key = 'username' if conn == 'server' else 'filename'
+            for plan in ([3, 0], [1, 0, 0], [1500, 0], [2000, 200, 0], [700, 2]):
+                for glue in (True, False):
+                    for n in (2, 3):
+                        for req_at in (0, 5):
+                            inc = [{'conn': conn, 'cls': name, 'values': vals[k], 'at': 4 + (0 if glue else k),
+                                    'glue': glue and k > 0} for k in range(n)]
+                            yield {'requests': [{'api': api, 'conn': conn, 'cls': name,
+                                                 'fields': {key: vals[0][key]}, 'timeout': 30, 'at': req_at,
+                                                 'cancel': None}],
+                                   'incoming': inc, 'reconn': [], 'listeners': [{'suspend': plan}], 'connects': []}
+
+
 def run_shard(ctx):
     ctx.enumerate(_shared_reply_cases())
+    ctx.enumerate(_suspending_cases())
     n = 500 if ctx.tier == 'quick' else 20000
     ctx.explore(case_strategy(), n)
     from checks import c12_cmd
@@ -572,11 +734,16 @@ def run_shard(ctx):
 
 
 MANIFEST_ENTRY = {
-    'technique': 'property-based testing (Hypothesis): generated request multisets and incoming message schedules on a '
-                 'virtual-time loop with in-memory TCP, first-match reference model as oracle',
+    'technique': 'property-based testing (Hypothesis): generated request multisets and incoming message schedules '
+                 '(glued segments, raising and suspending application listeners, reconnecting peers, concurrent '
+                 'address lookups) on a virtual-time loop with in-memory TCP, first-match reference model as oracle; '
+                 'second tier: generated execute(command, response=True) scripts incl. a run-time credentials change',
     'level_text': 'Generated-schedule exploration of the real Network request/response matching through real '
                   'connections: outcomes of every pending request are compared with a sequential first-match '
-                  'reference model; residue, reader liveness and loop errors are checked after each history.',
+                  'reference model (messages of a connection handled one after the other, requests see a message when '
+                  'its handling ends; completing message identified by object); per-connection handling order, '
+                  'residue, reader liveness and loop errors are checked after each history.',
     'level_note': 'Trusted base: virtual loop and in-memory TCP (ordered, lossless, latency 1 ms), the reference model '
-                  'in checks/c12.py. Ties on the same tick accept both orders.',
+                  'in checks/c12.py. Ties at the same instant accept both orders. Suspending listeners are not '
+                  'combined with reconnections.',
 }
